@@ -217,6 +217,15 @@ Theorem guesses_subset : forall F nW n data G, Forall (fun g => g < N.of_nat n) 
 Proof. exact guesses_subset_pf. Qed.
 Print Assumptions guesses_subset.
 
+(* very large batches made of few distinct rows (the count-boundary cases of the correspondence harness): the array of a batch given
+   as runs of repeated rows is the array of the distinct rows expanded along the same runs, and so is every words selection *)
+Theorem batches_of_repeated_rows : forall F nW w rows runs G, runs_ok (length rows) runs = true ->
+  select_words nW w (full_F F nW (expand [] rows runs) G)
+  = option_map (fun t => expand_tens t runs) (select_words nW w (full_F F nW rows G)).
+Proof. exact batches_of_repeated_rows_pf. Qed.
+Print Assumptions batches_of_repeated_rows.
+
+
 (* ================================================================ non-vacuity (FIPS vectors) *)
 Definition kB := Fips197.bytes_be 16 0x2b7e151628aed2a6abf7158809cf4f3c.
 Definition pB := Fips197.bytes_be 16 0x3243f6a8885a308d313198a2e0370734.
